@@ -177,7 +177,7 @@ func (s *Sched) access(p unsafe.Pointer, size uintptr, store bool, site string) 
 		return
 	}
 	if Promoted[site] {
-		point(&op{kind: "plain", enabled: alwaysEnabled, obj: uintptr(p)})
+		point(&op{kind: "plain", enabled: alwaysEnabled, obj: uintptr(p), hot: true})
 	}
 	t := s.cur
 	h.accesses++
